@@ -137,6 +137,7 @@ class Resolver(object):
                 self.def_fi[id(fi.node)] = fi
         self.var = {}        # (fid, name) -> set of atoms   (params + locals, flow-insensitive)
         self.field = {}      # (cls, attr) -> set of atoms
+        self.stored_fields = set()  # (cls, attr) assigned somewhere (even if the value carries no atoms)
         self.ret = {}        # fid -> set of atoms (whole value; tuples are ('T', ...) atoms)
         self.glob = {}       # (module, name) -> set of atoms
         self.calls = {}      # id(call node) -> CallInfo
@@ -241,7 +242,7 @@ class Resolver(object):
                 if a[0] == "C":
                     out |= self.field.get((a[1], node.attr), set())
                     ci = self.prog.classes.get(a[1])
-                    if ci and node.attr in ci.methods and (a[1], node.attr) not in self.field:
+                    if ci and node.attr in ci.methods and (a[1], node.attr) not in self.stored_fields:
                         out.add(("BM", ci.methods[node.attr].fid))
                 elif a[0] == "K":
                     ci = self.prog.classes.get(a[1])
@@ -366,6 +367,9 @@ class Resolver(object):
         elif isinstance(target, ast.Attribute):
             for a in self.ev(fi, target.value):
                 if a[0] == "C":
+                    if (a[1], target.attr) not in self.stored_fields:
+                        self.stored_fields.add((a[1], target.attr))
+                        self.changed = True
                     self._add(self.field, (a[1], target.attr), set(atoms))
         elif isinstance(target, (ast.Tuple, ast.List)):
             n = len(target.elts)
